@@ -25,7 +25,9 @@ from .common import CheckerDefect
 
 LEVEL = 'exploration'
 
-KNOWN = {}
+KNOWN = {'dispatcher-ignores-config': 'C19-dispatcher-ignores-config',
+         'flag-does-not-win:toplevel:git-nbdifftool': 'C19-toplevel-flag-shadowed',
+         'flag-does-not-win:toplevel:git-nbmergetool': 'C19-toplevel-flag-shadowed'}
 
 MARK = '@@C19-RESULT@@'
 ENVKEYS = ['JUPYTER_CONFIG_DIR', 'JUPYTER_CONFIG_PATH', 'JUPYTER_NO_CONFIG', 'PYTHONIOENCODING']
@@ -197,7 +199,7 @@ def _observe_parse(step):
 def _classify(entry, cfgs, opt, got, flag, mode):
     from bounded import c19_model as M
     if flag is not None:
-        return 'flag-does-not-win' + (':toplevel' if flag['at'] == 'top' else '')
+        return 'flag-does-not-win' + ((':toplevel:%s' % entry) if flag['at'] == 'top' else '')
     if not M.setters(entry, cfgs, opt):
         return 'default-wrong'
     if mode == 'dispatch':
